@@ -19,7 +19,7 @@
    changes, all other elements and their order stay"). *)
 From Coq Require Import List ZArith Bool Arith Lia.
 From SC Require Import Base.Res Base.PyList Inst.Heap Inst.ClassTable Inst.Model Inst.Canon Inst.Abs
-  Inst.SpecHelpers Inst.ElemProofs Inst.RefineProofs Inst.CopyProofs Inst.ElemRefine Inst.ElemRefine2 Inst.ElemRefine3 Inst.ElemRefine4 Inst.ElemRefine5 Inst.ElemRefine6 Inst.ElemRefine7 Inst.ElemRefineGuard.
+  Inst.SpecHelpers Inst.ElemProofs Inst.RefineProofs Inst.CopyProofs Inst.ElemRefine Inst.ElemRefine2 Inst.ElemRefine3 Inst.ElemRefine4 Inst.ElemRefine5 Inst.ElemRefine6 Inst.ElemRefine7 Inst.ElemRefine8 Inst.ElemRefineGuard.
 Import ListNotations.
 Open Scope nat_scope.
 
@@ -420,7 +420,7 @@ Qed.
    receiver itself is returned) and on the error class, and an error leaves the heap alone.
    STILL MISSING for the full statement: item preparers, keywords / spec elements, nested
    receivers, in-place calls on a shared container, update_/transform_<item> on dicts and sets
-   and without _inplace, container missing (created on the fly), classes with invalidated_by.
+   and without _inplace, classes with invalidated_by.
    (The copy-on-write flag of with_/without_<item> is C06_elem_helpers_copy_refine_guarded_partial.) *)
 Theorem C06_elem_helpers_refine_guarded_partial : forall ct h0 s l a,
   (* lists *)
@@ -625,6 +625,63 @@ Example C06_copy_guard_examples :
     = Err FrozenErr.
 Proof. vm_compute. repeat split. Qed.
 
+(* "CREATING THE CONTAINER WHEN IT IS MISSING" (Inst/ElemRefine8.v).  missing_guard: flat
+   receiver of an unfrozen class without invalidated_by whose attribute a is declared List /
+   Dict / Set and holds nothing (no entry in the instance, no class-level default).
+   with_<item> in place creates the empty container, edits it and stores it: the abstraction
+   of the receiver afterwards is spec_helper's result (which starts from the empty container);
+   without_<item> finds nothing in the container it has just created: ValueError / IndexError /
+   KeyError exactly as the specification says (no target at all: the empty list is stored).
+   missing_refines_spec also says that every old cell but the receiver's keeps its content. *)
+Theorem C06_elem_helpers_missing_container_refine_guarded_partial : forall ct h0 s l a,
+  (missing_guard ct s l a KList = true ->
+     (forall idx v ins, plain_items ct s l a = true -> vscalar v = true ->
+        (idx = VMissing \/ exists i, idx = VInt i) ->
+        missing_refines_spec ct h0 s l (HWithItem a) (mkh [v] true true idx ins None None [] None)
+                             (SWithItem a) (mkah [abs0 v] true true (abs0 idx) ins None None [] None)) /\
+     (forall voi bi, nonref voi = true ->
+        missing_refines_spec ct h0 s l (HWithoutItem a) (mkh [voi] true true VMissing false bi None [] None)
+                             (SWithoutItem a) (mkah [abs0 voi] true true AMissing false bi None [] None))) /\
+  (missing_guard ct s l a KDict = true ->
+     (forall key v, plain_items ct s l a = true -> nonref key = true -> vscalar v = true ->
+        missing_refines_spec ct h0 s l (HWithItem a) (mkh [key; v] true true VMissing false None None [] None)
+                             (SWithItem a) (mkah [abs0 key; abs0 v] true true AMissing false None None [] None)) /\
+     (forall key, nonref key = true ->
+        missing_refines_spec ct h0 s l (HWithoutItem a) (mkh [key] true true VMissing false None None [] None)
+                             (SWithoutItem a) (mkah [abs0 key] true true AMissing false None None [] None))) /\
+  (missing_guard ct s l a KSet = true ->
+     (forall v, plain_items ct s l a = true -> vscalar v = true ->
+        missing_refines_spec ct h0 s l (HWithItem a) (mkh [v] true true VMissing false None None [] None)
+                             (SWithItem a) (mkah [abs0 v] true true AMissing false None None [] None)) /\
+     (forall voi, nonref voi = true ->
+        missing_refines_spec ct h0 s l (HWithoutItem a) (mkh [voi] true true VMissing false None None [] None)
+                             (SWithoutItem a) (mkah [abs0 voi] true true AMissing false None None [] None))).
+Proof.
+  intros ct h0 s l a. split; [|split]; intro G; split.
+  - intros idx v ins P Hv Hi. now apply with_item_list_missing_guarded.
+  - intros voi bi Hv. now apply without_item_list_missing_guarded.
+  - intros key v P Hk Hv. now apply with_item_dict_missing_guarded.
+  - intros key Hk. now apply without_item_dict_missing_guarded.
+  - intros v P Hv. now apply with_item_set_missing_guarded.
+  - intros voi Hv. now apply without_item_set_missing_guarded.
+Qed.
+
+(* non-vacuity of missing_guard: an instance of the example class holding nothing *)
+Example C06_missing_guard_examples :
+  missing_guard ex_ct ex_state_missing 0 1 KList = true /\ missing_guard ex_ct ex_state_missing 0 2 KDict = true /\
+  missing_guard ex_ct ex_state_missing 0 3 KSet = true /\ plain_items ex_ct ex_state_missing 0 2 = true /\
+  snd (run_helper ex_ct 0 (HWithItem 1) (mkh [VInt 0] true true VMissing false None None [] None) ex_state_missing)
+    = mkst [OInst 0 [(1, VRef 1)]; OList [VInt 0]] 0 None /\
+  snd (run_helper ex_ct 0 (HWithItem 2) (mkh [VStr 0; VInt 0] true true VMissing false None None [] None) ex_state_missing)
+    = mkst [OInst 0 [(2, VRef 1)]; ODict [(VStr 0, VInt 0)]] 0 None /\
+  fst (run_helper ex_ct 0 (HWithItem 1) (mkh [VInt 0] true true (VInt 0) false None None [] None) ex_state_missing)
+    = Err IndexErr /\
+  fst (run_helper ex_ct 0 (HWithoutItem 3) (mkh [VInt 0] true true VMissing false None None [] None) ex_state_missing)
+    = Err ValueErr /\
+  fst (run_helper ex_ct 0 (HWithoutItem 2) (mkh [VStr 0] true true VMissing false None None [] None) ex_state_missing)
+    = Err KeyErr.
+Proof. vm_compute. repeat split. Qed.
+
 (* WHY by_value_ok IS NEEDED — a finding.  xs : List[int] holding [1, 0, 1, 0];
    transform_<item>(True, lambda x: x): True has the element type, so the target is addressed
    BY VALUE; True == 1 finds position 0.  "Replace by transformed value" (spec_change_item)
@@ -682,5 +739,7 @@ Print Assumptions C06_guard_examples.
 Print Assumptions C06_elem_helpers_copy_refine_guarded_partial.
 Print Assumptions C06_list_change_item_copy_refine_guarded_partial.
 Print Assumptions C06_copy_guard_examples.
+Print Assumptions C06_elem_helpers_missing_container_refine_guarded_partial.
+Print Assumptions C06_missing_guard_examples.
 Print Assumptions C06_by_value_transforms_argument_refuted.
 Print Assumptions C06_examples.
